@@ -30,9 +30,19 @@ func fileOf(p *Program, fn *ssa.Function) string {
 }
 
 // readsCPUFlag: fn loads a boolean global of utils/cpu or a supportAdx-like package flag.
-func readsCPUFlag(fn *ssa.Function) bool {
+func readsCPUFlag(fn *ssa.Function) bool { return readsCPUFlagD(fn, 0) }
+
+func readsCPUFlagD(fn *ssa.Function, depth int) bool {
 	for _, b := range fn.Blocks {
 		for _, in := range b.Instrs {
+			// a predicate of the package that wraps the flag test (useAVX512(n))
+			if call, ok := in.(*ssa.Call); ok && depth < 2 {
+				if h := call.Call.StaticCallee(); h != nil && h.Blocks != nil && len(h.Blocks) <= 12 && fnPkgPath(h) == fnPkgPath(fn) && h.Signature.Results().Len() == 1 && isBasic(h.Signature.Results().At(0).Type()) {
+					if readsCPUFlagD(h, depth+1) {
+						return true
+					}
+				}
+			}
 			if u, ok := in.(*ssa.UnOp); ok {
 				if g, ok := u.X.(*ssa.Global); ok {
 					if strings.HasSuffix(g.Pkg.Pkg.Path(), "utils/cpu") || strings.HasPrefix(g.Name(), "support") || strings.HasPrefix(g.Name(), "Support") {
